@@ -54,7 +54,10 @@ def main():
     os.makedirs(lane_dir, exist_ok=True)
     meta = {"id": sid, "breaks_property": prop, "source": src, "checked_at": time.strftime("%Y-%m-%d %H:%M:%S")}
     sh(f"git -C {REPO} worktree remove --force {wt}")
-    sh(f"git -C {REPO} worktree add --detach {wt} HEAD -q")
+    # (SEED_BASE: the commit the change was written against, when a later repair touched the same lines)
+    sh(f"git -C {REPO} worktree add --detach {wt} {os.environ.get('SEED_BASE', 'HEAD')} -q")
+    if os.environ.get("SEED_BASE"):
+        meta["base_commit"] = os.environ["SEED_BASE"]
     results = {}
     try:
         rc, out = sh(f"PYTHONPATH={wt} /venv/bin/python {demo}", cwd=wt, timeout=1800)
